@@ -336,6 +336,29 @@ pub fn fd_table_diff(
 
 /// Independent kernel oracle: `openat2(root, path, flags, RESOLVE_IN_ROOT|NO_MAGICLINKS|extra)`.
 pub fn kernel_openat2(root: BorrowedFd<'_>, path: &[u8], flags: u64, resolve_extra: u64) -> Result<OwnedFd, i32> {
+    kernel_openat2_mode(root, path, flags, libc::RESOLVE_IN_ROOT | libc::RESOLVE_NO_MAGICLINKS | resolve_extra)
+}
+
+/// the confined lookup the procfs resolver uses (`RESOLVE_BENEATH|RESOLVE_NO_XDEV|RESOLVE_NO_MAGICLINKS`), on this tree:
+/// validates `PWorld.resolveBeneath` against the live kernel
+pub fn kernel_beneath_line(root: &Root, op: &Op, rflags: ResolverFlags, labels: &Labels) -> Option<String> {
+    let (path, fl) = match op {
+        Op::Resolve { path, nofollow } => (path, libc::O_PATH as u64 | if *nofollow { libc::O_NOFOLLOW as u64 } else { 0 }),
+        Op::OpenSubpath { path, flags }
+            if flags & (libc::O_TRUNC | libc::O_CREAT) == 0 && flags & libc::O_TMPFILE != libc::O_TMPFILE =>
+        {
+            (path, *flags as u32 as u64)
+        }
+        _ => return None,
+    };
+    let resolve = libc::RESOLVE_BENEATH | libc::RESOLVE_NO_XDEV | libc::RESOLVE_NO_MAGICLINKS | rflags.bits();
+    Some(match kernel_openat2_mode(root.as_fd(), path, fl, resolve) {
+        Ok(fd) => format!("kernb ok fd {}", describe_fd(fd.as_raw_fd(), labels)),
+        Err(e) => format!("kernb err {e}"),
+    })
+}
+
+pub fn kernel_openat2_mode(root: BorrowedFd<'_>, path: &[u8], flags: u64, resolve: u64) -> Result<OwnedFd, i32> {
     #[repr(C)]
     struct How {
         flags: u64,
@@ -345,7 +368,7 @@ pub fn kernel_openat2(root: BorrowedFd<'_>, path: &[u8], flags: u64, resolve_ext
     let how = How {
         flags: flags | libc::O_CLOEXEC as u64,
         mode: 0,
-        resolve: libc::RESOLVE_IN_ROOT | libc::RESOLVE_NO_MAGICLINKS | resolve_extra,
+        resolve,
     };
     let c = match CString::new(path) {
         Ok(c) => c,
